@@ -23,8 +23,16 @@ import vlib
 _BRACKETING = ("emph", "strong", "link", "image")
 
 
-def html(docs):
-    return [vlib.unhex(x) for x in vlib.Driver("leanmark-html").run([vlib.hexs(d) for d in docs])]
+def html(docs, reading=0):
+    """reading 0 = the model's default (the spec's appendix strategy); 1..3 = the other readings of the two points on
+    which the spec's prose and its appendix differ (lean/Verif/Model/LeanMark/Block.lean `Reading`)."""
+    m = "leanmark-html" + (f"-r{reading}" if reading else "")
+    return [vlib.unhex(x) for x in vlib.Driver(m).run([vlib.hexs(d) for d in docs])]
+
+
+def ambiguity(docs):
+    """per document: "" if all four readings give the same event stream, else the deviating reading indices, e.g. "13"."""
+    return ["" if x == "0" else x for x in vlib.Driver("leanmark-amb").run([vlib.hexs(d) for d in docs])]
 
 
 def in_scope(docs):
@@ -90,8 +98,9 @@ def parse_events(answer):
     return out
 
 
-def events(docs):
-    return [parse_events(a) for a in vlib.Driver("leanmark-events").run([vlib.hexs(d) for d in docs])]
+def events(docs, reading=0):
+    m = "leanmark-events" + (f"-r{reading}" if reading else "")
+    return [parse_events(a) for a in vlib.Driver(m).run([vlib.hexs(d) for d in docs])]
 
 
 if __name__ == "__main__":
